@@ -792,19 +792,25 @@ def gen_gates(repo, consts):
     return "Definition gen_should_fingerprint (frag : bool) (ty : Z) : bool :=\n  %s." % " && ".join(e2(v) for v in r.values)
 
 
-def gen_valid(repo, consts):
+VALID_TABLE = {"packet.should_fingerprint": ("(gen_should_fingerprint frag ty)", "B"), "packet.tcp.type": ("ty", "Z"),
+               "packet.tcp.options.mss": ("mss", "Z")}
+VALID_FNS = {"tcp": ("pyp0f/fingerprint/tcp.py", "valid_for_tcp_fingerprint", "(frag : bool) (ty : Z)"),
+             "mtu": ("pyp0f/fingerprint/mtu.py", "valid_for_mtu_fingerprint", "(frag : bool) (ty mss : Z)"),
+             "uptime": ("pyp0f/fingerprint/uptime.py", "valid_for_uptime_fingerprint", "(frag : bool) (ty : Z)")}
+
+
+def gen_valid_for(repo, consts, which):
+    path, fn, args = VALID_FNS[which]
+    f = find_function(ast.parse(open(os.path.join(repo, path)).read()), fn)
+    body = [s for s in f.body if not (isinstance(s, ast.Expr) and isinstance(s.value, ast.Constant))]
+    if len(body) != 1 or not isinstance(body[0], ast.Return) or [a.arg for a in f.args.args] != ["packet"]:
+        fail(f, "%s shape" % fn)
+    env = Env(VALID_TABLE, consts)
+    return "Definition gen_%s %s : bool :=\n  %s." % (fn, args, truthy(body[0].value, env))
+
+
+def gen_mtu_sig(repo, consts):
     out = []
-    table = {"packet.should_fingerprint": ("(gen_should_fingerprint frag ty)", "B"), "packet.tcp.type": ("ty", "Z"),
-             "packet.tcp.options.mss": ("mss", "Z")}
-    for path, fn, args in (("pyp0f/fingerprint/tcp.py", "valid_for_tcp_fingerprint", "(frag : bool) (ty : Z)"),
-                           ("pyp0f/fingerprint/mtu.py", "valid_for_mtu_fingerprint", "(frag : bool) (ty mss : Z)"),
-                           ("pyp0f/fingerprint/uptime.py", "valid_for_uptime_fingerprint", "(frag : bool) (ty : Z)")):
-        f = find_function(ast.parse(open(os.path.join(repo, path)).read()), fn)
-        body = [s for s in f.body if not (isinstance(s, ast.Expr) and isinstance(s.value, ast.Constant))]
-        if len(body) != 1 or not isinstance(body[0], ast.Return) or [a.arg for a in f.args.args] != ["packet"]:
-            fail(f, "%s shape" % fn)
-        env = Env(table, consts)
-        out.append("Definition gen_%s %s : bool :=\n  %s." % (fn, args, truthy(body[0].value, env)))
     # MTUPacketSignature.from_mss
     f = find_function(ast.parse(open(os.path.join(repo, "pyp0f/net/signatures/mtu.py")).read()), "from_mss", cls="MTUPacketSignature")
     body = [s for s in f.body if not (isinstance(s, ast.Expr) and isinstance(s.value, ast.Constant))]
@@ -842,7 +848,7 @@ def opt_ret(want):
     return ret
 
 
-def gen_loops(repo, consts):
+def gen_find_tcp(repo, consts):
     out = []
     # find_tcp_match
     f = find_function(ast.parse(open(os.path.join(repo, "pyp0f/fingerprint/tcp.py")).read()), "find_tcp_match")
@@ -854,6 +860,11 @@ def gen_loops(repo, consts):
     table = {"packet_signature": ("p", "PSIG"), "options": ("md", "OPTIONS"), "TCPRecord": ("tt", "CLS"), "direction": ("tt", "DIR")}
     env = Env(table, consts, calls, attrs)
     out.append("Definition gen_find_tcp_match (md : Z) (recs : list tcp_rec) (p : pkt_sig) : option (mtype * tcp_rec) :=\n %s." % block(f.body, env, opt_ret("TMATCH")))
+    return "\n".join(out)
+
+
+def gen_find_mtu(repo, consts):
+    out = []
     # find_mtu_match
     f = find_function(ast.parse(open(os.path.join(repo, "pyp0f/fingerprint/mtu.py")).read()), "find_mtu_match")
     calls = {"mtu_signatures_match": (2, lambda a, e: ("(gen_mtu_signatures_match %s %s)" % (a[0][0], a[1][0]), "B")),
@@ -861,6 +872,11 @@ def gen_loops(repo, consts):
     attrs = {("MTUREC", "signature"): (lambda b: "(m_mtu %s)" % b, "Z")}
     env = Env({"packet_signature": ("mtu", "Z"), "MTURecord": ("tt", "CLS")}, consts, calls, attrs)
     out.append("Definition gen_find_mtu_match (recs : list mtu_rec) (mtu : Z) : option mtu_rec :=\n %s." % block(f.body, env, opt_ret("MTUREC")))
+    return "\n".join(out)
+
+
+def gen_distance_fn(repo, consts):
+    out = []
     # TCPResult.__post_init__: the reported distance
     f = find_function(ast.parse(open(os.path.join(repo, "pyp0f/fingerprint/results/tcp.py")).read()), "__post_init__", cls="TCPResult")
     body = [s for s in f.body if not (isinstance(s, ast.Expr) and isinstance(s.value, ast.Constant))]
@@ -947,25 +963,45 @@ def gen_http(repo, consts):
     return "\n".join(out)
 
 
-HEADER = """(* GENERATED by translate/py2coq.py from %s -- regenerated on every check run; do not edit. *)
-From PV Require Import Model.Prelude Model.Bits Model.Sig Model.Select Model.Mtu Model.Options Model.Text Model.SigParse Model.DbParse Model.HttpRead Model.HttpMatch.
-Definition wtype_eqb (a b : wtype) : bool :=
-  match a, b with WNormal, WNormal | WAny, WAny | WMod, WMod | WMss, WMss | WMtu, WMtu => true | _, _ => false end.
-Definition mtype_eqb (a b : mtype) : bool :=
-  match a, b with Exact, Exact | FuzzyTTL, FuzzyTTL | FuzzyQuirks, FuzzyQuirks => true | _, _ => false end.
-"""
+HEADER = """(* GENERATED by translate/py2coq.py from %s (group %s) -- regenerated on every check run; do not edit. *)
+From PV Require Import Model.Prelude Model.Bits Model.Sig Model.Select Model.Mtu Model.Options Model.Text Model.SigParse Model.DbParse Model.HttpRead Model.HttpMatch Gen.GenLib.
+%s"""
+
+# One generated file per group, so that a source change the translator cannot read (or that breaks an equivalence proof) only
+# affects the properties that rest on that group.  "select" uses the matcher of "match".
+GROUPS = {
+    "match": ([], [gen_win_multi, gen_match]),
+    "uptime": ([], [gen_round, gen_gates, lambda r, c: gen_valid_for(r, c, "uptime")]),
+    "select": (["match"], [gen_guess, gen_gates, lambda r, c: gen_valid_for(r, c, "tcp"), gen_find_tcp, gen_distance_fn]),
+    "mtu": ([], [gen_gates, lambda r, c: gen_valid_for(r, c, "mtu"), gen_mtu_sig, gen_find_mtu]),
+    "options": ([], [gen_options]),
+    "http": ([], [gen_http]),
+}
 
 
-def main(repo, out):
-    LOOP_COUNTER[0] = 0
-    consts = common_consts(repo)
-    parts = [HEADER % repo, gen_win_multi(repo, consts), gen_match(repo, consts), gen_round(repo, consts), gen_guess(repo, consts), gen_gates(repo, consts), gen_valid(repo, consts), gen_loops(repo, consts), gen_options(repo, consts), gen_http(repo, consts)]
-    open(out, "w").write("\n\n".join(parts) + "\n")
+def main(repo, outdir):
+    import json
+    status = {}
+    for g, (deps, fns) in GROUPS.items():
+        LOOP_COUNTER[0] = 0
+        path = os.path.join(outdir, "Generated_%s.v" % g)
+        try:
+            bad = [d for d in deps if status.get(d) != "ok"]
+            if bad:
+                raise Unsupported("depends on group %s, which could not be translated" % bad[0])
+            consts = common_consts(repo)
+            imports = "".join("From PV Require Import Gen.Generated_%s.\n" % d for d in deps)
+            parts = [HEADER % (repo, g, imports)] + [f(repo, consts) for f in fns]
+            open(path, "w").write("\n\n".join(parts) + "\n")
+            status[g] = "ok"
+        except Unsupported as e:
+            open(path, "w").write("(* group %s: UNSUPPORTED: %s *)\n" % (g, str(e).replace("*)", "* )")))
+            status[g] = "UNSUPPORTED: %s" % e
+        except (OSError, SyntaxError) as e:
+            open(path, "w").write("(* group %s: unreadable source *)\n" % g)
+            status[g] = "UNSUPPORTED: source unreadable: %s" % e
+    print("STATUS " + json.dumps(status))
 
 
 if __name__ == "__main__":
-    try:
-        main(sys.argv[1], sys.argv[2])
-    except Unsupported as e:
-        print("UNSUPPORTED: %s" % e)
-        sys.exit(3)
+    main(sys.argv[1], sys.argv[2])
